@@ -89,6 +89,7 @@ ProjRead(cs) == SelectSeq(RowY(cs), LAMBDA v : v # Gap)
 Status(cs, partial) ==
     LET held == RangeOf(HeldX(cs)) IN
     IF ~partial THEN (IF ExtX \subseteq held THEN "in" ELSE "out")
+    ELSE IF held = {} THEN "opt"          \* only gaps of x in view: what overlaps an empty window is left open
     ELSE IF DenX \cap held # {} THEN "in"
     ELSE IF ExtX \cap held # {} THEN "opt"
     ELSE "out"
@@ -104,8 +105,31 @@ SpanClass(cs, s, e) ==
             ELSE IF s < lo /\ e > hi THEN "C"
             ELSE IF s < lo THEN "L" ELSE IF e > hi THEN "R" ELSE "I"
 
+(* The same spans read as *column* coordinates give an alignment-level feature *)
+(* (add_feature(on_alignment=True), biotype region, name r): it denotes the     *)
+(* columns themselves, all rows included.                                       *)
+RCols == {c \in 0..(L - 1) : InSpans(c)}
+RExt == fs[1][1]..(fs[Len(fs)][2] - 1)
+RPos(cs) == SelectSeq(Ident(Len(cs)), LAMBDA k : cs[k + 1] \in RCols)
+RRead(cs) ==
+    LET asc == SelectSeq(Ident(L), LAMBDA c : c \in RCols /\ c \in RangeOf(cs))
+    IN IF strand = "+" THEN asc ELSE Reverse(asc)
+RStatus(cs, partial) ==
+    IF ~partial THEN (IF RExt \subseteq RangeOf(cs) THEN "in" ELSE "out")
+    ELSE IF RCols \cap RangeOf(cs) # {} THEN "in"
+    ELSE IF RExt \cap RangeOf(cs) # {} THEN "opt"
+    ELSE "out"
+RObs(cs, c) ==
+    [pos  |-> RPos(cs),
+     rowx |-> [k \in 1..Len(RRead(cs)) |-> SymX(RRead(cs)[k])],
+     rowy |-> [k \in 1..Len(RRead(cs)) |-> SymY(RRead(cs)[k])],
+     fcomp |-> strand = "-",
+     rev  |-> (strand = "-") # c,
+     vis  |-> RStatus(cs, TRUE), inside |-> RStatus(cs, FALSE)]
+
 ObsOf(cs, c) ==
-    [pos   |-> AlnPos(cs),
+    [region |-> RObs(cs, c),
+     pos   |-> AlnPos(cs),
      rowx  |-> RowX(cs), rowy |-> RowY(cs),
      fcomp |-> strand = "-",
      rev   |-> (strand = "-") # c,
